@@ -46,6 +46,9 @@ NoNode == 0
 (*   acc    callbacks accumulated by the slices of an unfinished continue  *)
 (*   memo   results of pure function evaluations made at this position     *)
 (*   multi  the instance has ever had a second flow                        *)
+(*   watch  registered (observer, variable) pairs; survives reset and load  *)
+(*   vm     the globals as of the previous call (name -> value id)         *)
+(*   calls  external function -> number of host callbacks so far           *)
 (*   lost   the position is not tracked (after an operation this           *)
 (*          specification says nothing about); only reset and load         *)
 (*          re-establish it                                                *)
@@ -53,7 +56,7 @@ NoNode == 0
 Fresh(root, froot) ==
   [ pos |-> (DefaultFlow :> root), cur |-> DefaultFlow, pend |-> FALSE, home |-> root,
     froot |-> froot, last |-> NObs[root], acc |-> <<>>, memo |-> <<>>, multi |-> FALSE,
-    lost |-> FALSE ]
+    lost |-> FALSE, watch |-> {}, vm |-> <<>>, calls |-> <<>> ]
 
 Here(s) == s.pos[s.cur]
 Alive(s) == DOMAIN s.pos
@@ -75,6 +78,16 @@ ValidF(s, lab) ==
 RegisterF(s, lab) ==
   LET t == ValidF(s, lab) IN
   IF HasKid(s.home, lab) THEN [t EXCEPT !.home = Kid(s.home, lab)] ELSE t
+
+\* bookkeeping common to every accepted call: what the host saw and which registrations exist
+Track(s, e) ==
+  LET w == IF e.res # "ok" THEN s.watch
+           ELSE IF e.op = "observe" THEN s.watch \cup {<<e.wo, e.wv>>}
+           ELSE IF e.op = "remove_observer" /\ e.wv # "" THEN s.watch \ {<<e.wo, e.wv>>}
+           ELSE IF e.op = "remove_observer" THEN {p \in s.watch : p[1] # e.wo}
+           ELSE s.watch
+      c == [f \in DOMAIN e.ext |-> (IF f \in DOMAIN s.calls THEN s.calls[f] ELSE 0) + e.ext[f]] IN
+  [s EXCEPT !.watch = w, !.vm = e.vm, !.calls = c @@ s.calls]
 
 \* a rejected call: nothing changes (C09)
 RejectedF(s) == s
